@@ -134,6 +134,17 @@ func tmplDecls() listTemplate {
 		}}
 }
 
+// tmplGroupedDecls: top-level declarations that are parenthesised groups (the closing parenthesis is a
+// token of the element: comments hanging in front of it belong to the element)
+func tmplGroupedDecls() listTemplate {
+	t := tmplDecls()
+	t.Name = "File.Decls(grouped)"
+	t.Elem = func(id int) []string {
+		return []string{"const (", fmt.Sprintf("\te%d = iota", id), fmt.Sprintf("\tf%d", id), ")"}
+	}
+	return t
+}
+
 func specsOf(d dst.Decl) reflect.Value { return reflect.ValueOf(&d.(*dst.GenDecl).Specs).Elem() }
 
 var listTemplates = []listTemplate{
@@ -145,6 +156,7 @@ var listTemplates = []listTemplate{
 	tmplIfStmts(),
 	tmplCaseBody(),
 	tmplDecls(),
+	tmplGroupedDecls(),
 	genDeclTemplate("GenDecl.Specs(var)", "var (", func(id int) string { return fmt.Sprintf("e%d = %d", id, id) }, func(f *dst.File) (reflect.Value, reflect.Value) {
 		return specsOf(f.Decls[0]), specsOf(f.Decls[1])
 	}),
@@ -262,7 +274,7 @@ func (t listTemplate) text(a, b []chunk, blank bool) string {
 		lines = append(lines, t.Close(l)...)
 	}
 	emit("a", a)
-	if t.Name != "File.Decls" {
+	if !strings.HasPrefix(t.Name, "File.Decls") {
 		emit("b", b)
 	}
 	if t.Qualified {
